@@ -35,8 +35,8 @@ CLAIMS = {
               "SQL text (bounded only); capacity eviction of the LRU caches ('within the documented limits'); operation SEQUENCES (each operation is verified against the model separately; composition is by the model); std sort / iterator adapters.", "DESIGN.md §3 C10"),
  "C11": claim("the two restart mechanisms that are Rust code: ensure_hydrated's loop re-creates the snapshot queue from storage within the retention bound, keeping the most recent in order and releasing the rest; parse_snapshot_name gives a re-loaded snapshot the epoch, commit id and group of its name; the builder passes retention / TTL through and prunes by age at build(); is_better_candidate requests hydration of the group's queue first. The obligation that a re-loaded snapshot still carries its commit timestamp FAILS on the unchanged tree (known finding F16: race resolution does not survive a restart). Two bounded stand-ins (a history with two restarts on a database file; same-second snapshots read back in order).",
               "everything that lives in the database file (SQL, migrations: bounded only); the two-run comparison over histories; pending commits / proposals / key packages across restarts (OpenMLS storage provider).", "DESIGN.md §3 C11"),
- "C15": claim("group-data extension from_raw accepts exactly the fixed field lengths and version != 0 and copies every field; deserialize rejects trailing bytes; key-package parse order (kind, tags, content, identity binding); h-tag: exactly one tag of 64 hex characters; ContentEncoding accepts only an explicit recognised tag and has no default.",
-              "as_raw (the encoding half: no round-trip claim); string-level tag grammar inside validate_key_package_tags, TLS codec of tls_codec/OpenMLS, imeta text format.", "DESIGN.md §3 C15, §8.2"),
+ "C15": claim("group-data extension from_raw accepts exactly the fixed field lengths and version != 0 and copies every field; deserialize rejects trailing bytes; key-package parse order (kind, tags, content, identity binding); h-tag: exactly one tag of 64 hex characters; ContentEncoding accepts only an explicit recognised tag and has no default; as_raw (the encoding half, whole function) maps every field to its own TLS field, absent image fields to empty vectors and present ones to their 32 / 12 bytes -- the shapes from_raw accepts and maps back.",
+              "decode(encode(x)) == x as one theorem (the two halves are proved in two units over the same field shapes); string-level tag grammar inside validate_key_package_tags, TLS codec of tls_codec/OpenMLS, imeta text format.", "DESIGN.md §3 C15, §8.2"),
  "C16": claim("re-processing a processed welcome returns the stored one and writes nothing; a failed one is refused; preview failure writes only the Failed record; Pending after process, Active + self-update Required only after accept, Inactive after decline; welcome and dedup record saved together; nothing is written before the last input check.",
               "joiner/inviter MLS state equality (OpenMLS); known finding F3 (a welcome overwrites an Active group's record).", "DESIGN.md §3 C16"),
  "C17": claim("HKDF context and AAD byte layouts; injectivity lemma for NUL-free mime/filename; upload binds key, AAD and published metadata to the same canonical fields; decrypt returns bytes only after the SHA-256 check; scheme-version whitelist; the epoch hint stored with a message is the epoch the message was sent in (sender and receiver).",
